@@ -299,6 +299,106 @@ run_cfg(const Cfg& c, vh::Rng& rng, bool thorough)
     }
 }
 
+// history: the lazily built tables must not remember the sampling that was in force when they were built
+static void
+run_history(const Cfg& c, vh::Rng& rng)
+{
+  if (!c.scanner_name.empty())
+    return;
+  shared_ptr<Scanner> scanner = vh::make_scanner(c.N, c.R, c.tof_bins);
+  const int N = c.N;
+  shared_ptr<ProjDataInfo> pdi0;
+  try
+    {
+      pdi0 = vh::make_pdi(scanner, c.span, c.max_delta, c.views, std::max(1, N / 2 - 1), false, c.tof_mash);
+    }
+  catch (...)
+    {
+      return;
+    }
+  shared_ptr<ProjDataInfoCylindricalNoArcCorr> pdi = dynamic_pointer_cast<ProjDataInfoCylindricalNoArcCorr>(pdi0);
+  if (!pdi)
+    return;
+  std::fprintf(ops, "cfg %d %d %d %d %d %d\n", N, c.R, c.span, c.max_delta, c.views, c.tof_mash);
+  {
+    std::ostringstream s;
+    s << "segs " << pdi->get_min_segment_num() << " :";
+    for (int sg = pdi->get_min_segment_num(); sg <= pdi->get_max_segment_num(); ++sg)
+      s << " " << pdi->get_min_ring_difference(sg) << "," << pdi->get_max_ring_difference(sg) << "," << pdi->get_num_axial_poss(sg);
+    std::fprintf(out, "%s\n", s.str().c_str());
+  }
+  auto probe = [&](ProjDataInfoCylindricalNoArcCorr& q, int n) {
+    for (int k = 0; k < n; ++k)
+      {
+        int d1 = rng.range(0, N - 1), d2 = rng.range(0, N - 1);
+        if (d1 == d2)
+          d2 = (d2 + 1) % N;
+        int v, tp;
+        const bool keep = q.get_view_tangential_pos_num_for_det_num_pair(v, tp, d1, d2);
+        std::fprintf(ops, "dv %d %d\n", d1, d2);
+        std::fprintf(out, "%d %d %d\n", v, tp, keep ? 1 : 0);
+        // ORACLE: the bin found for a pair lists that pair (or its exchange) among its own pairs
+        DetectionPositionPair<> dp;
+        dp.pos1().tangential_coord() = d1;
+        dp.pos2().tangential_coord() = d2;
+        dp.pos1().axial_coord() = 0;
+        dp.pos2().axial_coord() = 0;
+        dp.timing_pos() = 0;
+        Bin b;
+        if (q.get_bin_for_det_pos_pair(b, dp) != Succeeded::yes)
+          continue;
+        ++oracle_checks;
+        bool ok = b.view_num() >= 0 && b.view_num() < q.get_num_views();
+        if (ok && b.tangential_pos_num() >= q.get_min_tangential_pos_num() && b.tangential_pos_num() <= q.get_max_tangential_pos_num())
+          {
+            std::vector<DetectionPositionPair<>> all;
+            q.get_all_det_pos_pairs_for_bin(all, b, true);
+            bool found = false;
+            for (auto& x : all)
+              if ((x.pos1() == dp.pos1() && x.pos2() == dp.pos2()) || (x.pos1() == dp.pos2() && x.pos2() == dp.pos1()))
+                found = true;
+            ok = found;
+          }
+        if (!ok)
+          {
+            ++oracle_fails;
+            if (oracle_fails < 20)
+              std::fprintf(orc, "ORACLE-FAIL after changing the number of views to %d the bin of detector pair (%d,%d) has view %d / does not list the pair\n",
+                           q.get_num_views(), d1, d2, b.view_num());
+          }
+      }
+  };
+  probe(*pdi, 30); // builds the tables with the original sampling
+  // all view counts that divide N/2
+  std::vector<int> vs;
+  for (int d = 1; d <= N / 2; ++d)
+    if ((N / 2) % d == 0)
+      vs.push_back(N / 2 / d);
+  for (int step = 0; step < 3; ++step)
+    {
+      const int nv = vs[rng.range(0, (int)vs.size() - 1)];
+      if (rng.coin())
+        {
+          pdi->set_num_views(nv);
+          std::fprintf(ops, "setviews %d\n", nv);
+          std::fprintf(out, "ok\n");
+          probe(*pdi, 40);
+        }
+      else
+        {
+          shared_ptr<ProjDataInfo> cl(pdi->clone());
+          cl->set_num_views(nv);
+          std::fprintf(ops, "setviews %d\n", nv);
+          std::fprintf(out, "ok\n");
+          probe(*dynamic_pointer_cast<ProjDataInfoCylindricalNoArcCorr>(cl), 40);
+          // and the original is untouched
+          std::fprintf(ops, "setviews %d\n", pdi->get_num_views());
+          std::fprintf(out, "ok\n");
+          probe(*pdi, 20);
+        }
+    }
+}
+
 int
 main(int argc, char** argv)
 {
@@ -372,6 +472,7 @@ main(int argc, char** argv)
       try
         {
           run_cfg(c, rng, thorough);
+          run_history(c, rng);
         }
       catch (std::exception& e)
         {
